@@ -116,7 +116,7 @@ package leader
 //@ objinv kvElection C11.monitor_has_handler: this.connectionMonitor != nil ==> (this.disconnectHandler != nil && this.disconnectHandler.election == this)
 //@ objinv disconnectHandler C11.handler_has_election: this.election != nil
 
-//@ lockinv kvElection.mu C18+C02+C01.claim_iff_state:        isLeader == (state == "LEADER")
+//@ lockinv kvElection.mu C18+C02+C01+C19.claim_iff_state:        isLeader == (state == "LEADER")
 //@ lockinv kvElection.mu C20+C09.no_run_under_a_waiting_stop: stopsWaiting > 0 ==> stopped
 //@ lockinv kvElection.mu C20+C09.waiting_stops_counted: stopsWaiting >= caller.stopsAnnouncedHere && caller.stopsAnnouncedHere >= 0
 //@ lockinv kvElection.mu C02+C09.claim_implies_running:  isLeader ==> (ctx != nil && !stopped)
@@ -847,6 +847,7 @@ package leader
 //@   on load kvElection.token as l set lastTok = l.value
 //@   on call json.Marshal as m assert C05+C07+C02.heartbeat_payload: m.v.ID == e.cfg.InstanceID && m.v.Token == lastTok && m.v.Priority == e.cfg.Priority
 //@   on call time.After as a assert C03+C07.timeout_value: a.d == max(e.cfg.HeartbeatInterval / 2, 1000000000)
+//@   on select as s assert C03+C07+C09+C18+C19.every_wait_of_the_refresh_loop_ends_with_the_term: s.blocking ==> s.hasDone && s.doneCtx == ctx
 //@   on call KeyValue.Update assert C03.attempt_time_boxed: inspawn()
 //@   on call KeyValue.Get assert C03.attempt_time_boxed: inspawn()
 //@   ghost spawned updErr Int = 0
@@ -907,7 +908,7 @@ package leader
 //@   on call becomeFollower set demote_cause = runDead
 //@   on ret becomeFollower as r set cleared = r.result
 //@   on load kvElection.onDemote as l set demoteSet = l.value != nil
-//@   ensures C03+C02.cancelled_run_ends_its_term: runDead ==> calls(becomeFollower) == 1
+//@   ensures C03+C02+C19.cancelled_run_ends_its_term: runDead ==> calls(becomeFollower) == 1
 //@   ensures C07.live_run_left_alone: !runDead ==> calls(becomeFollower) == 0 && calls(onDemote) == 0
 //@   ensures C08+C03.demote_iff_claim_cleared: calls(onDemote) == ((cleared && demoteSet) ? 1 : 0)
 
